@@ -1,1 +1,847 @@
-(* placeholder, being written *)
+(* Lemmas about the supply-series models of Model/Series.v (C08, C09). *)
+From Coq Require Import QArith Lqa Lia List Bool Arith ZArith.
+From Allfed Require Import Base.QSeries Model.Series.
+Import ListNotations.
+Open Scope Q_scope.
+
+Lemma Qlt_bool_iff : forall a b, Qlt_bool a b = true <-> a < b.
+Proof.
+  intros a b. unfold Qlt_bool. rewrite negb_true_iff. split; intro H.
+  - apply Qnot_le_lt. intro L. apply Qle_bool_iff in L. congruence.
+  - destruct (Qle_bool b a) eqn:E; [|reflexivity]. apply Qle_bool_iff in E. lra.
+Qed.
+
+Lemma Qlt_bool_false : forall a b, Qlt_bool a b = false <-> b <= a.
+Proof.
+  intros a b. unfold Qlt_bool. rewrite negb_false_iff. apply Qle_bool_iff.
+Qed.
+
+Lemma linspace_length : forall a b n, List.length (linspace a b n) = n.
+Proof. intros. apply tab_length. Qed.
+
+Lemma linspace_nth : forall a b n i, (i < n)%nat ->
+  nthq (linspace a b n) i = a + (b - a) * qnat i / qnat (n - 1).
+Proof. intros. unfold linspace. apply tab_nth. assumption. Qed.
+
+(* ---------------------------------------------------------------- greenhouse area *)
+Definition area_fn (d : nat) (lim : Q) (m : nat) : Q :=
+  if (m <? d + 5)%nat then 0
+  else if (m <? d + 42)%nat then lim * qnat (m - (d + 5)) / 36
+  else lim.
+
+Definition area_spec (g : gh_in) (m : nat) : Q :=
+  if Qeq_bool (total_crop_area g) 0 then 0
+  else if gadd g then area_fn (gdelay g) (total_crop_area g * gmult g) m else 0.
+
+Lemma area_long_nth : forall d lim k m, (m < d + 42 + k)%nat ->
+  nthq (rep 0 d ++ rep 0 5 ++ linspace 0 lim 37 ++ rep lim k) m == area_fn d lim m.
+Proof.
+  intros d lim k m H. unfold area_fn.
+  destruct (m <? d + 5)%nat eqn:E1.
+  - apply Nat.ltb_lt in E1.
+    destruct (Nat.lt_ge_cases m d) as [L|L].
+    + rewrite nthq_app_l by (rewrite rep_length; exact L). rewrite rep_nth by exact L. reflexivity.
+    + rewrite nthq_app_r by (rewrite rep_length; exact L). rewrite rep_length.
+      rewrite nthq_app_l by (rewrite rep_length; lia). rewrite rep_nth by lia. reflexivity.
+  - apply Nat.ltb_ge in E1.
+    rewrite nthq_app_r by (rewrite rep_length; lia). rewrite rep_length.
+    rewrite nthq_app_r by (rewrite rep_length; lia). rewrite rep_length.
+    destruct (m <? d + 42)%nat eqn:E2.
+    + apply Nat.ltb_lt in E2.
+      rewrite nthq_app_l by (rewrite linspace_length; lia).
+      rewrite linspace_nth by lia.
+      replace (m - d - 5)%nat with (m - (d + 5))%nat by lia.
+      change (qnat (37 - 1)) with 36. field.
+    + apply Nat.ltb_ge in E2.
+      rewrite nthq_app_r by (rewrite linspace_length; lia). rewrite linspace_length.
+      rewrite rep_nth by lia. reflexivity.
+Qed.
+
+Lemma greenhouse_area_length : forall n g, (gadd g = true -> 42 <= n)%nat -> List.length (greenhouse_area n g) = n.
+Proof.
+  intros n g H. unfold greenhouse_area.
+  destruct (Qeq_bool (total_crop_area g) 0); [apply rep_length|].
+  destruct (gadd g); [|apply rep_length].
+  rewrite firstn_length. repeat rewrite app_length. repeat rewrite rep_length. rewrite linspace_length.
+  specialize (H eq_refl). lia.
+Qed.
+
+Lemma greenhouse_area_nth : forall n g m, (gadd g = true -> 42 <= n)%nat -> (m < n)%nat ->
+  nthq (greenhouse_area n g) m == area_spec g m.
+Proof.
+  intros n g m H Hm. unfold greenhouse_area, area_spec.
+  destruct (Qeq_bool (total_crop_area g) 0); [rewrite rep_nth by exact Hm; reflexivity|].
+  destruct (gadd g); [|rewrite rep_nth by exact Hm; reflexivity].
+  specialize (H eq_refl).
+  rewrite nthq_firstn by exact Hm. apply area_long_nth. lia.
+Qed.
+
+Lemma area_fn_zero_before : forall d lim m, (m < d + 5)%nat -> area_fn d lim m == 0.
+Proof. intros d lim m H. unfold area_fn. apply Nat.ltb_lt in H. rewrite H. reflexivity. Qed.
+
+Lemma area_fn_bounds : forall d lim m, 0 <= lim -> 0 <= area_fn d lim m /\ area_fn d lim m <= lim.
+Proof.
+  intros d lim m Hl. unfold area_fn.
+  destruct (m <? d + 5)%nat; [lra|].
+  destruct (m <? d + 42)%nat eqn:E; [|lra].
+  apply Nat.ltb_lt in E.
+  assert (A : 0 <= qnat (m - (d + 5))) by apply qnat_nonneg.
+  assert (B : qnat (m - (d + 5)) <= qnat 36) by (apply qnat_le; lia).
+  change (qnat 36) with 36 in B.
+  assert (C1 : 0 <= lim * qnat (m - (d + 5))) by nra.
+  assert (C2 : lim * qnat (m - (d + 5)) <= lim * 36) by nra.
+  set (t := lim * qnat (m - (d + 5))) in *. clearbody t. split; [apply Qle_shift_div_l; lra|apply Qle_shift_div_r; lra].
+Qed.
+
+Lemma area_fn_step : forall d lim m, 0 <= lim -> area_fn d lim m <= area_fn d lim (S m).
+Proof.
+  intros d lim m Hl.
+  destruct (area_fn_bounds d lim (S m) Hl) as [B1 B2].
+  destruct (area_fn_bounds d lim m Hl) as [B3 B4].
+  unfold area_fn in *.
+  destruct (m <? d + 5)%nat eqn:E1; [exact B1|].
+  apply Nat.ltb_ge in E1.
+  replace (S m <? d + 5)%nat with false in * by (symmetry; apply Nat.ltb_ge; lia).
+  destruct (S m <? d + 42)%nat eqn:E2.
+  - apply Nat.ltb_lt in E2.
+    replace (m <? d + 42)%nat with true by (symmetry; apply Nat.ltb_lt; lia).
+    assert (A : qnat (m - (d + 5)) <= qnat (S m - (d + 5))) by (apply qnat_le; lia).
+    assert (A' : lim * qnat (m - (d + 5)) <= lim * qnat (S m - (d + 5))) by nra.
+    set (t1 := lim * qnat (m - (d + 5))) in *. set (t2 := lim * qnat (S m - (d + 5))) in *. clearbody t1 t2. apply Qle_shift_div_r; [lra|]. unfold Qdiv. rewrite <- Qmult_assoc. setoid_replace (/ 36 * 36) with 1 by reflexivity. lra.
+  - destruct (m <? d + 42)%nat; [exact B4|lra].
+Qed.
+
+Lemma area_fn_mono : forall d lim i j, 0 <= lim -> (i <= j)%nat -> area_fn d lim i <= area_fn d lim j.
+Proof.
+  intros d lim i j Hl H. induction H; [lra|].
+  apply Qle_trans with (area_fn d lim m); [exact IHle|apply area_fn_step; exact Hl].
+Qed.
+(* ---------------------------------------------------------------- fraction *)
+Definition frac_spec (g : gh_in) (m : nat) : Q :=
+  if Qeq_bool (total_crop_area g) 0 then 0 else area_spec g m / total_crop_area g.
+
+Lemma greenhouse_fraction_length : forall n g, (gadd g = true -> 42 <= n)%nat -> List.length (greenhouse_fraction n g) = n.
+Proof.
+  intros n g H. unfold greenhouse_fraction. destruct (Qeq_bool (total_crop_area g) 0); [apply rep_length|].
+  rewrite map_length. apply greenhouse_area_length. exact H.
+Qed.
+
+Lemma greenhouse_fraction_nth : forall n g m, (gadd g = true -> 42 <= n)%nat -> (m < n)%nat ->
+  nthq (greenhouse_fraction n g) m == frac_spec g m.
+Proof.
+  intros n g m H Hm. unfold greenhouse_fraction, frac_spec.
+  destruct (Qeq_bool (total_crop_area g) 0) eqn:E; [rewrite rep_nth by exact Hm; reflexivity|].
+  rewrite nthq_map by (rewrite greenhouse_area_length by exact H; exact Hm).
+  rewrite (greenhouse_area_nth n g m H Hm). unfold area_spec. rewrite E. reflexivity.
+Qed.
+
+Lemma area_spec_bounds : forall g m, 0 <= total_crop_area g * gmult g ->
+  0 <= area_spec g m /\ area_spec g m <= total_crop_area g * gh_mult g.
+Proof.
+  intros g m H. unfold area_spec, gh_mult.
+  destruct (Qeq_bool (total_crop_area g) 0) eqn:E.
+  - apply Qeq_bool_iff in E. rewrite E. split; [lra|]. destruct (gadd g); lra.
+  - destruct (gadd g); [apply area_fn_bounds; exact H|]. split; lra.
+Qed.
+
+Lemma frac_spec_range : forall g m, 0 <= total_crop_area g -> 0 <= gmult g -> gmult g <= 1 ->
+  0 <= frac_spec g m /\ frac_spec g m <= 1.
+Proof.
+  intros g m Ht H0 H1. unfold frac_spec.
+  destruct (Qeq_bool (total_crop_area g) 0) eqn:E; [split; lra|].
+  assert (Hne : ~ total_crop_area g == 0) by (intro A; apply Qeq_bool_iff in A; congruence).
+  assert (Hp : 0 < total_crop_area g) by (destruct (Qlt_le_dec 0 (total_crop_area g)); [assumption|exfalso; apply Hne; lra]).
+  assert (Hl : 0 <= total_crop_area g * gmult g) by nra.
+  destruct (area_spec_bounds g m Hl) as [A B].
+  assert (B' : area_spec g m <= total_crop_area g * 1).
+  { apply Qle_trans with (total_crop_area g * gh_mult g); [exact B|]. unfold gh_mult. destruct (gadd g); nra. }
+  split; [apply Qle_shift_div_l; lra|apply Qle_shift_div_r; lra].
+Qed.
+
+(* ---------------------------------------------------------------- net output *)
+Lemma crops_produced_length : forall pw c frac, List.length (crops_produced pw c frac) = cN c.
+Proof.
+  intros. unfold crops_produced. destruct (cadd c); [|apply rep_length].
+  destruct (crot c); cbv zeta; apply tab_length.
+Qed.
+
+Lemma outdoor_production_length : forall pw c g, List.length (outdoor_production pw c g) = cN c.
+Proof. intros. unfold outdoor_production. rewrite map_length. apply crops_produced_length. Qed.
+
+(* what is grown on the land in month m: relocated crops once the relocation delay has passed *)
+Definition grown_on_land (pw : Q -> Q -> Q) (c : crop_in) (m : nat) : Q :=
+  if crot c && (chd c + crotdelay c <=? m)%nat then nthq (grown pw c) m else nthq (norel_grown c) m.
+
+Lemma outdoor_production_nth : forall pw c g m, cadd c = true -> (m < cN c)%nat ->
+  nthq (outdoor_production pw c g) m ==
+  grown_on_land pw c m * (1 - nthq (greenhouse_fraction (cN c) g) m) * (1 - cwd c / 100).
+Proof.
+  intros pw c g m Ha Hm. unfold outdoor_production.
+  rewrite nthq_map by (rewrite crops_produced_length; exact Hm).
+  unfold crops_produced, grown_on_land. rewrite Ha.
+  destruct (crot c); cbv zeta; rewrite tab_nth by exact Hm; simpl andb.
+  - destruct (m <? chd c + crotdelay c)%nat eqn:E.
+    + apply Nat.ltb_lt in E. replace (chd c + crotdelay c <=? m)%nat with false by (symmetry; apply Nat.leb_gt; exact E). reflexivity.
+    + apply Nat.ltb_ge in E. replace (chd c + crotdelay c <=? m)%nat with true by (symmetry; apply Nat.leb_le; exact E). reflexivity.
+  - reflexivity.
+Qed.
+
+Lemma outdoor_production_off : forall pw c g m, cadd c = false -> nthq (outdoor_production pw c g) m == 0.
+Proof.
+  intros pw c g m Ha. destruct (Nat.lt_ge_cases m (cN c)) as [L|L].
+  - unfold outdoor_production. rewrite nthq_map by (rewrite crops_produced_length; exact L).
+    unfold crops_produced. rewrite Ha. rewrite rep_nth by exact L. ring.
+  - rewrite nthq_overflow by (rewrite outdoor_production_length; exact L). reflexivity.
+Qed.
+(* ---------------------------------------------------------------- relocation and expansion *)
+Definition set_rot (c : crop_in) (b : bool) : crop_in :=
+  Build_crop_in (cN c) (cstart c) (cbase c) (cseas c) (cr1 c) (crs c) (chbm c) b (cexp c) (carea c) (chd c)
+                (cyears c) (crotdelay c) (cwd c) (cwr c) (cadd c).
+Definition set_area (c : crop_in) (a : Q) : crop_in :=
+  Build_crop_in (cN c) (cstart c) (cbase c) (cseas c) (cr1 c) (crs c) (chbm c) (crot c) (cexp c) a (chd c)
+                (cyears c) (crotdelay c) (cwd c) (cwr c) (cadd c).
+Definition set_base (c : crop_in) (b : Q) : crop_in :=
+  Build_crop_in (cN c) (cstart c) b (cseas c) (cr1 c) (crs c) (chbm c) (crot c) (cexp c) (carea c) (chd c)
+                (cyears c) (crotdelay c) (cwd c) (cwr c) (cadd c).
+
+Lemma clamp0_nonneg : forall r, 0 <= clamp0 r.
+Proof. intro r. unfold clamp0. destruct (Qle_bool r 0) eqn:E; [lra|]. 
+  destruct (Qlt_le_dec 0 r); [lra|]. apply Qle_bool_iff in q. congruence. Qed.
+
+Section Power.
+  Variable pw : Q -> Q -> Q.
+  (* what the theorems need of x ** e : on [0,1] with 0 < e <= 1 it lies between x and 1 *)
+  Hypothesis pw_ge : forall x e, 0 <= x -> x <= 1 -> 0 < e -> e <= 1 -> x <= pw x e.
+  Hypothesis pw_le1 : forall x e, 0 <= x -> x <= 1 -> 0 < e -> e <= 1 -> pw x e <= 1.
+
+  Lemma relocated_ge : forall e r, 0 < e -> e <= 1 -> clamp0 r <= relocated pw e r.
+  Proof.
+    intros e r He0 He1. unfold relocated. pose proof (clamp0_nonneg r) as H0.
+    destruct (Qlt_bool 1 (clamp0 r)) eqn:E; [lra|].
+    apply Qlt_bool_false in E. apply pw_ge; assumption.
+  Qed.
+
+  Definition exp_ok (c : crop_in) : Prop := 0 < eff_exp c /\ eff_exp c <= 1.
+
+  Lemma grown_climate_length : forall c, List.length (grown_climate pw c) = cN c.
+  Proof. intros. unfold grown_climate. cbv zeta. apply tab_length. Qed.
+  Lemma norel_length : forall c, List.length (norel_grown c) = cN c.
+  Proof. intros. unfold norel_grown. cbv zeta. apply tab_length. Qed.
+  Lemma area_ramp_length : forall c, List.length (area_ramp c) = cN c.
+  Proof. intros. unfold area_ramp. cbv zeta. apply tab_length. Qed.
+
+  Lemma grown_length : forall c, List.length (grown pw c) = cN c.
+  Proof.
+    intros. unfold grown. destruct (Qlt_bool 1 (carea c)); [|apply grown_climate_length].
+    rewrite map2_length, grown_climate_length, area_ramp_length. apply Nat.min_id.
+  Qed.
+
+  Lemma norel_nth : forall c m, (m < cN c)%nat ->
+    nthq (norel_grown c) m = nthq (months_cycle c) (m mod 12) * clamp0 (nthq (reductions c) m).
+  Proof. intros. unfold norel_grown. cbv zeta. apply tab_nth. assumption. Qed.
+
+  Lemma grown_climate_nth : forall c m, (m < cN c)%nat ->
+    nthq (grown_climate pw c) m = nthq (months_cycle c) (m mod 12) * relocated pw (eff_exp c) (nthq (reductions c) m).
+  Proof. intros. unfold grown_climate. cbv zeta. apply tab_nth. assumption. Qed.
+
+  Lemma norel_nonneg : forall c, all_nonneg (months_cycle c) -> all_nonneg (norel_grown c).
+  Proof.
+    intros c Hc. apply all_nonneg_of_lt. intros m Hm. rewrite norel_length in Hm.
+    rewrite norel_nth by exact Hm. pose proof (Hc (m mod 12)%nat). pose proof (clamp0_nonneg (nthq (reductions c) m)). nra.
+  Qed.
+
+  Lemma climate_ge_norel : forall c m, all_nonneg (months_cycle c) -> exp_ok c -> (m < cN c)%nat ->
+    nthq (norel_grown c) m <= nthq (grown_climate pw c) m.
+  Proof.
+    intros c m Hc [He0 He1] Hm. rewrite norel_nth, grown_climate_nth by exact Hm.
+    pose proof (Hc (m mod 12)%nat). pose proof (relocated_ge (eff_exp c) (nthq (reductions c) m) He0 He1). nra.
+  Qed.
+
+  Lemma area_ramp_ge1 : forall c m, 1 <= carea c -> (m < cN c)%nat -> 1 <= nthq (area_ramp c) m.
+  Proof.
+    intros c m Ha Hm. unfold area_ramp. cbv zeta. rewrite tab_nth by exact Hm.
+    destruct (cyears c * 12 <=? m)%nat eqn:E1; [exact Ha|].
+    destruct (chd c <=? m)%nat eqn:E2; [|lra].
+    apply Nat.leb_gt in E1. apply Nat.leb_le in E2.
+    assert (A : qnat (chd c) <= qnat m) by (apply qnat_le; exact E2).
+    assert (B : qnat m < qnat (cyears c * 12)).
+    { unfold qnat, Qlt; simpl. lia. }
+    assert (D : 0 < qnat (cyears c * 12) - qnat (chd c)) by lra.
+    assert (F : 0 <= (carea c - 1) / (qnat (cyears c * 12) - qnat (chd c))) by (apply Qle_shift_div_l; lra).
+    set (inc := (carea c - 1) / (qnat (cyears c * 12) - qnat (chd c))) in *. clearbody inc. nra.
+  Qed.
+
+  Lemma grown_ge_climate : forall c m, all_nonneg (months_cycle c) -> exp_ok c -> 1 <= carea c -> (m < cN c)%nat ->
+    nthq (grown_climate pw c) m <= nthq (grown pw c) m.
+  Proof.
+    intros c m Hc He Ha Hm. unfold grown. destruct (Qlt_bool 1 (carea c)); [|lra].
+    rewrite map2_nth by (rewrite ?grown_climate_length, ?area_ramp_length; exact Hm).
+    pose proof (area_ramp_ge1 c m Ha Hm) as R.
+    pose proof (climate_ge_norel c m Hc He Hm) as G.
+    pose proof (norel_nonneg c Hc m) as Z.
+    set (x := nthq (grown_climate pw c) m) in *. set (y := nthq (area_ramp c) m) in *. clearbody x y. nra.
+  Qed.
+
+  (* relocated crops never yield less than the same land without relocation *)
+  Lemma grown_ge_norel : forall c m, all_nonneg (months_cycle c) -> exp_ok c -> 1 <= carea c -> (m < cN c)%nat ->
+    nthq (norel_grown c) m <= nthq (grown pw c) m.
+  Proof.
+    intros c m Hc He Ha Hm.
+    apply Qle_trans with (nthq (grown_climate pw c) m); [apply climate_ge_norel|apply grown_ge_climate]; assumption.
+  Qed.
+
+  Lemma norel_set_rot : forall c b, norel_grown (set_rot c b) = norel_grown c.
+  Proof. reflexivity. Qed.
+  Lemma norel_set_area : forall c a, norel_grown (set_area c a) = norel_grown c.
+  Proof. reflexivity. Qed.
+  Lemma climate_set_area : forall c a, grown_climate pw (set_area c a) = grown_climate pw c.
+  Proof. reflexivity. Qed.
+
+  Definition waste_ok (c : crop_in) : Prop := 0 <= cwd c /\ cwd c <= 100.
+
+  Lemma production_monotone_in_grown : forall c c' g m,
+    cN c' = cN c -> cwd c' = cwd c -> cadd c = true -> cadd c' = true -> (m < cN c)%nat ->
+    (gadd g = true -> 42 <= cN c)%nat -> 0 <= total_crop_area g -> 0 <= gmult g -> gmult g <= 1 -> waste_ok c ->
+    grown_on_land pw c m <= grown_on_land pw c' m ->
+    nthq (outdoor_production pw c g) m <= nthq (outdoor_production pw c' g) m.
+  Proof.
+    intros c c' g m HN Hw Ha Ha' Hm Hg Ht H0 H1 [W0 W1] HG.
+    rewrite (outdoor_production_nth pw c g m Ha Hm).
+    rewrite (outdoor_production_nth pw c' g m Ha') by (rewrite HN; exact Hm).
+    rewrite HN, Hw. rewrite (greenhouse_fraction_nth (cN c) g m Hg Hm).
+    destruct (frac_spec_range g m Ht H0 H1) as [F0 F1].
+    set (f := frac_spec g m) in *. set (a := grown_on_land pw c m) in *. set (b := grown_on_land pw c' m) in *.
+    clearbody f a b.
+    assert (K : 0 <= (1 - f) * (1 - cwd c / 100)).
+    { apply Qmult_le_0_compat; [lra|]. assert (cwd c / 100 <= 1) by (apply Qle_shift_div_r; lra). lra. }
+    set (k := (1 - f) * (1 - cwd c / 100)) in *.
+    setoid_replace (a * (1 - f) * (1 - cwd c / 100)) with (a * k) by (unfold k; ring).
+    setoid_replace (b * (1 - f) * (1 - cwd c / 100)) with (b * k) by (unfold k; ring).
+    clearbody k. nra.
+  Qed.
+
+  Lemma relocation_never_lowers : forall c g m,
+    all_nonneg (months_cycle c) -> 0 < cexp c -> cexp c <= 1 -> 1 <= carea c -> cadd c = true -> (m < cN c)%nat ->
+    (gadd g = true -> 42 <= cN c)%nat -> 0 <= total_crop_area g -> 0 <= gmult g -> gmult g <= 1 -> waste_ok c ->
+    nthq (outdoor_production pw (set_rot c false) g) m <= nthq (outdoor_production pw (set_rot c true) g) m.
+  Proof.
+    intros c g m Hc He0 He1 Ha Hadd Hm Hg Ht H0 H1 Hw.
+    apply production_monotone_in_grown; try assumption; try reflexivity.
+    unfold grown_on_land. cbn [crot set_rot chd crotdelay andb].
+    destruct (chd c + crotdelay c <=? m)%nat; [|rewrite !norel_set_rot; lra].
+    rewrite !norel_set_rot.
+    apply (grown_ge_norel (set_rot c true) m); try assumption.
+    unfold exp_ok, eff_exp. cbn. split; assumption.
+  Qed.
+
+  Lemma expansion_never_lowers : forall c g m,
+    all_nonneg (months_cycle c) -> exp_ok c -> 1 <= carea c -> cadd c = true -> (m < cN c)%nat ->
+    (gadd g = true -> 42 <= cN c)%nat -> 0 <= total_crop_area g -> 0 <= gmult g -> gmult g <= 1 -> waste_ok c ->
+    nthq (outdoor_production pw (set_area c 1) g) m <= nthq (outdoor_production pw c g) m.
+  Proof.
+    intros c g m Hc He Ha Hadd Hm Hg Ht H0 H1 Hw.
+    apply production_monotone_in_grown; try assumption; try reflexivity.
+    unfold grown_on_land. cbn [crot set_area chd crotdelay].
+    destruct (crot c && (chd c + crotdelay c <=? m)%nat); [|rewrite norel_set_area; lra].
+    unfold grown at 1. cbn [carea set_area]. replace (Qlt_bool 1 1) with false by reflexivity.
+    rewrite climate_set_area. apply grown_ge_climate; assumption.
+  Qed.
+End Power.
+(* ================================================================ C08: calendar, year blocks, closed forms *)
+
+(* index of the ratio (year-1 ratio :: years 2..10) each of the 120 table entries reads *)
+Definition year_index : list nat :=
+  repeat 0%nat 8 ++ flat_map (fun k => repeat k 12) (seq 1 8) ++ repeat 9%nat 16.
+
+Lemma year_blocks_map : forall y1 r2 r3 r4 r5 r6 r7 r8 r9 r10,
+  year_blocks y1 [r2; r3; r4; r5; r6; r7; r8; r9; r10] =
+  map (fun k => nthq (y1 :: [r2; r3; r4; r5; r6; r7; r8; r9; r10]) k) year_index.
+Proof. reflexivity. Qed.
+
+Lemma year_index_spec : forall m, (m < 120)%nat -> nth m year_index 0%nat = year_of m.
+Proof.
+  assert (H : forallb (fun m => Nat.eqb (nth m year_index 0%nat) (year_of m)) (seq 0 120) = true) by (vm_compute; reflexivity).
+  intros m Hm. rewrite forallb_forall in H. apply Nat.eqb_eq. apply H. apply in_seq. lia.
+Qed.
+
+Lemma nthq_map_nat : forall (f : nat -> Q) (l : list nat) m, (m < List.length l)%nat ->
+  nthq (map f l) m = f (nth m l 0%nat).
+Proof.
+  intros f l m H. unfold nthq. rewrite (nth_indep _ 0 (f 0%nat)) by (rewrite map_length; exact H). apply map_nth.
+Qed.
+
+Lemma year_blocks_nth : forall y1 rs m, List.length rs = 9%nat -> (m < 120)%nat ->
+  nthq (year_blocks y1 rs) m = nthq (y1 :: rs) (year_of m).
+Proof.
+  intros y1 rs m Hl Hm.
+  do 9 (destruct rs as [|? rs]; [discriminate|]). destruct rs; [|discriminate].
+  rewrite year_blocks_map. rewrite nthq_map_nat by (vm_compute; lia).
+  rewrite year_index_spec by exact Hm. reflexivity.
+Qed.
+
+Lemma year_blocks_length : forall y1 rs, List.length rs = 9%nat -> List.length (year_blocks y1 rs) = 120%nat.
+Proof.
+  intros y1 rs Hl. do 9 (destruct rs as [|? rs]; [discriminate|]). destruct rs; [|discriminate]. reflexivity.
+Qed.
+
+(* calendar: the cycle that starts in month `start` *)
+Lemma rotate_nth12 : forall (l : list Q) k j, List.length l = 12%nat -> (k < 12)%nat -> (j < 12)%nat ->
+  nthq (rotate k l) j = nthq l ((j + k) mod 12).
+Proof.
+  intros l k j Hl Hk Hj.
+  do 12 (destruct l as [|? l]; [discriminate|]). destruct l; [|discriminate].
+  do 12 (destruct k as [|k]; [do 12 (destruct j as [|j]; [reflexivity|]); lia|]). lia.
+Qed.
+
+Lemma months_cycle_nth : forall c j, List.length (cseas c) = 12%nat -> (1 <= cstart c <= 12)%nat -> (j < 12)%nat ->
+  nthq (months_cycle c) j ==
+  nthq (cseas c) ((j + (cstart c - 1)) mod 12) * (cbase c * (1 - seed_percent / 100)) * 4000000 / 1000000000.
+Proof.
+  intros c j Hl Hs Hj. unfold months_cycle.
+  rewrite rotate_nth12 by (unfold month_cycle_jan; rewrite ?map_length; lia).
+  unfold month_cycle_jan. rewrite nthq_map by (rewrite Hl; apply Nat.mod_upper_bound; lia).
+  unfold annual_yield. rewrite Qred_correct. reflexivity.
+Qed.
+
+Lemma months_cycle_nonneg : forall c, List.length (cseas c) = 12%nat -> (1 <= cstart c <= 12)%nat ->
+  all_nonneg (cseas c) -> 0 <= cbase c -> all_nonneg (months_cycle c).
+Proof.
+  intros c Hl Hs Hn Hb. apply all_nonneg_of_lt. intros j Hj.
+  assert (L : List.length (months_cycle c) = 12%nat).
+  { unfold months_cycle, rotate, month_cycle_jan. rewrite app_length, skipn_length, firstn_length, map_length. lia. }
+  rewrite L in Hj. rewrite months_cycle_nth by assumption.
+  pose proof (Hn ((j + (cstart c - 1)) mod 12)%nat) as A.
+  assert (S : 0 <= 1 - seed_percent / 100) by (unfold seed_percent, Qle; simpl; lia).
+  set (s := nthq (cseas c) ((j + (cstart c - 1)) mod 12)) in *. set (k := 1 - seed_percent / 100) in *. clearbody s k.
+  assert (BK : 0 <= cbase c * k) by nra. set (bk := cbase c * k) in *. clearbody bk.
+  apply Qle_shift_div_l; [lra|]. nra.
+Qed.
+
+Definition year1 (c : crop_in) : Q := year1_ratio (cr1 c) (cseas c) (chbm c).
+
+(* what one month of un-relocated crops is, as a function of the inputs:
+   annual baseline net of seed x seasonality share of the calendar month x 4e6/1e9 x ratio of the model year *)
+Lemma norel_closed_form : forall c m,
+  List.length (cseas c) = 12%nat -> List.length (crs c) = 9%nat -> (1 <= cstart c <= 12)%nat ->
+  (m < cN c)%nat -> (cN c <= 120)%nat ->
+  nthq (norel_grown c) m ==
+  cbase c * (1 - seed_percent / 100) * nthq (cseas c) ((m + (cstart c - 1)) mod 12) * 4000000 / 1000000000
+  * clamp0 (nthq (year1 c :: crs c) (year_of m)).
+Proof.
+  intros c m Hl Hr Hs Hm HN. rewrite norel_nth by exact Hm.
+  rewrite months_cycle_nth by (try assumption; apply Nat.mod_upper_bound; lia).
+  rewrite Nat.add_mod_idemp_l by lia.
+  unfold reductions. rewrite year_blocks_nth by (try assumption; lia).
+  unfold year1. field.
+Qed.
+
+Lemma year1_ratio_nonneg : forall r1 seas o, 0 <= year1_ratio r1 seas o.
+Proof.
+  intros. unfold year1_ratio. cbv zeta.
+  set (hbm := match o with Some v => v | None => qsum (firstn 4 seas) end).
+  set (a := if Qlt_bool (r1 - hbm) 0 then 0 else r1 - hbm).
+  destruct (Qlt_bool 0 a) eqn:E; [|lra]. apply Qlt_bool_iff in E.
+  destruct (Qlt_bool (1 - hbm) (1 # 4)) eqn:E2; [lra|]. apply Qlt_bool_false in E2.
+  apply Qle_shift_div_l; lra.
+Qed.
+
+(* scaling the baseline scales every month by exactly that factor *)
+Lemma norel_homogeneous : forall c k m,
+  List.length (cseas c) = 12%nat -> List.length (crs c) = 9%nat -> (1 <= cstart c <= 12)%nat ->
+  (m < cN c)%nat -> (cN c <= 120)%nat ->
+  nthq (norel_grown (set_base c (k * cbase c))) m == k * nthq (norel_grown c) m.
+Proof.
+  intros c k m Hl Hr Hs Hm HN.
+  rewrite (norel_closed_form (set_base c (k * cbase c)) m) by assumption.
+  rewrite (norel_closed_form c m) by assumption.
+  cbn [cbase cseas cstart crs set_base]. unfold year1. cbn [cr1 cseas chbm set_base]. field.
+Qed.
+
+(* ---------------------------------------------------------------- fish *)
+Lemma fish_length : forall add n a wd wr pct, (n <= List.length pct)%nat ->
+  List.length (fish_series add n a wd wr pct) = n.
+Proof. intros. unfold fish_series. destruct add; rewrite map_length, firstn_length; lia. Qed.
+
+Lemma fish_nth : forall n a wd wr pct m, (n <= List.length pct)%nat -> (m < n)%nat ->
+  nthq (fish_series true n a wd wr pct) m ==
+  a * 4000000 / 1000000000 / 12 * ((1 - wd / 100) * (1 - wr / 100)) * (nthq pct m / 100).
+Proof.
+  intros n a wd wr pct m Hl Hm. unfold fish_series.
+  rewrite nthq_map by (rewrite firstn_length; lia). rewrite nthq_firstn by exact Hm.
+  unfold fish_monthly. field.
+Qed.
+
+Lemma fish_homogeneous : forall add n a wd wr pct k m, (n <= List.length pct)%nat -> (m < n)%nat ->
+  nthq (fish_series add n (k * a) wd wr pct) m == k * nthq (fish_series add n a wd wr pct) m.
+Proof.
+  intros add n a wd wr pct k m Hl Hm. destruct add.
+  - rewrite !fish_nth by assumption. field.
+  - unfold fish_series. rewrite !nthq_map by (rewrite firstn_length; lia). ring.
+Qed.
+
+(* ---------------------------------------------------------------- feed / biofuel demand *)
+Lemma demand_length : forall n d py, (d <= n)%nat -> List.length (demand_series n d py) = n.
+Proof. intros. unfold demand_series. rewrite app_length, !rep_length. lia. Qed.
+
+Lemma demand_nth : forall n d py m, (m < n)%nat ->
+  nthq (demand_series n d py) m == if (m <? d)%nat then py / 12 * 4000000 / 1000000000 else 0.
+Proof.
+  intros n d py m Hm. unfold demand_series.
+  destruct (m <? d)%nat eqn:E.
+  - apply Nat.ltb_lt in E. rewrite nthq_app_l by (rewrite rep_length; exact E). rewrite rep_nth by exact E. reflexivity.
+  - apply Nat.ltb_ge in E. rewrite nthq_app_r by (rewrite rep_length; exact E). rewrite rep_length.
+    rewrite rep_nth by lia. reflexivity.
+Qed.
+
+Lemma demand_homogeneous : forall n d py k m, (m < n)%nat ->
+  nthq (demand_series n d (k * py)) m == k * nthq (demand_series n d py) m.
+Proof. intros. rewrite !demand_nth by assumption. destruct (m <? d)%nat; field. Qed.
+
+(* ---------------------------------------------------------------- SCP / CS *)
+Lemma scp_table_length : List.length scp_pct_table = 1031%nat.
+Proof. vm_compute. reflexivity. Qed.
+Lemma cs_table_length : List.length cs_pct_table = 1008%nat.
+Proof. vm_compute. reflexivity. Qed.
+
+Lemma delayed_nth : forall d (t : list Q) m,
+  nthq (rep 0 d ++ t) m = if (m <? d)%nat then 0 else nthq t (m - d).
+Proof.
+  intros d t m. destruct (m <? d)%nat eqn:E.
+  - apply Nat.ltb_lt in E. rewrite nthq_app_l by (rewrite rep_length; exact E). apply rep_nth. exact E.
+  - apply Nat.ltb_ge in E. rewrite nthq_app_r by (rewrite rep_length; exact E). rewrite rep_length. reflexivity.
+Qed.
+
+Lemma scp_length : forall add n d s nd f w, (n <= 1000)%nat -> List.length (scp_series add n d s nd f w) = n.
+Proof.
+  intros. unfold scp_series. destruct add; [|apply rep_length].
+  rewrite firstn_length, map_length, !app_length, !rep_length, scp_table_length. lia.
+Qed.
+
+(* the code applies the start-up delay TWICE *)
+Lemma scp_nth : forall n d s nd f w m, (n <= 1000)%nat -> (m < n)%nat ->
+  nthq (scp_series true n d s nd f w) m ==
+  industrial_scale s nd f w (if (m <? 2 * d)%nat then 0 else nthq scp_pct_table (m - 2 * d)).
+Proof.
+  intros n d s nd f w m Hn Hm. unfold scp_series.
+  rewrite nthq_firstn by exact Hm.
+  rewrite nthq_map by (rewrite !app_length, !rep_length, scp_table_length; lia).
+  rewrite delayed_nth. destruct (m <? d)%nat eqn:E1.
+  - apply Nat.ltb_lt in E1. replace (m <? 2 * d)%nat with true by (symmetry; apply Nat.ltb_lt; lia). reflexivity.
+  - apply Nat.ltb_ge in E1. rewrite delayed_nth. destruct (m - d <? d)%nat eqn:E2.
+    + apply Nat.ltb_lt in E2. replace (m <? 2 * d)%nat with true by (symmetry; apply Nat.ltb_lt; lia). reflexivity.
+    + apply Nat.ltb_ge in E2. replace (m <? 2 * d)%nat with false by (symmetry; apply Nat.ltb_ge; lia).
+      replace (m - d - d)%nat with (m - 2 * d)%nat by lia. reflexivity.
+Qed.
+
+Lemma cs_nth : forall n d s nd f w m, (n <= 1000)%nat -> (m < n)%nat ->
+  nthq (cs_series true n d s nd f w) m ==
+  industrial_scale s nd f w (if (m <? d)%nat then 0 else nthq cs_pct_table (m - d)).
+Proof.
+  intros n d s nd f w m Hn Hm. unfold cs_series.
+  rewrite nthq_firstn by exact Hm.
+  rewrite (nthq_map (fun p => industrial_scale s nd f w (p * 1))) by (rewrite !app_length, !rep_length, cs_table_length; lia).
+  rewrite delayed_nth. unfold industrial_scale. destruct (m <? d)%nat; field.
+Qed.
+
+Lemma cs_length : forall add n d s nd f w, (n <= 1000)%nat -> List.length (cs_series add n d s nd f w) = n.
+Proof.
+  intros. unfold cs_series. destruct add.
+  - rewrite firstn_length, map_length, !app_length, !rep_length, cs_table_length. lia.
+  - rewrite firstn_length, rep_length. lia.
+Qed.
+
+Lemma table_step_ok : forall t, forallb (fun i => Qle_bool (nthq t i) (nthq t (S i))) (seq 0 (List.length t - 1)) = true ->
+  forall i j, (i <= j)%nat -> (j < List.length t)%nat -> nthq t i <= nthq t j.
+Proof.
+  intros t H i j Hij Hj. assert (ND : nondecreasing t).
+  { apply nondecreasing_of_step. intros k Hk. rewrite forallb_forall in H. apply Qle_bool_iff. apply H. apply in_seq. lia. }
+  apply ND. lia.
+Qed.
+
+Lemma scp_table_mono : forall i j, (i <= j)%nat -> (j < 1031)%nat -> nthq scp_pct_table i <= nthq scp_pct_table j.
+Proof. intros i j H1 H2. apply table_step_ok; [vm_compute; reflexivity|exact H1|rewrite scp_table_length; exact H2]. Qed.
+
+Lemma cs_table_mono : forall i j, (i <= j)%nat -> (j < 1008)%nat -> nthq cs_pct_table i <= nthq cs_pct_table j.
+Proof. intros i j H1 H2. apply table_step_ok; [vm_compute; reflexivity|exact H1|rewrite cs_table_length; exact H2]. Qed.
+
+Lemma table_bounds : forall t lo hi, forallb (fun x => Qle_bool lo x && Qle_bool x hi) t = true ->
+  forall i, (i < List.length t)%nat -> lo <= nthq t i /\ nthq t i <= hi.
+Proof.
+  intros t lo hi H i Hi. rewrite forallb_forall in H.
+  specialize (H (nthq t i) (nth_In t 0 Hi)). apply andb_true_iff in H. destruct H as [A B].
+  split; apply Qle_bool_iff; assumption.
+Qed.
+
+Lemma scp_table_bounds : forall i, (i < 1031)%nat -> 0 <= nthq scp_pct_table i /\ nthq scp_pct_table i <= 15.
+Proof. intros. apply table_bounds; [vm_compute; reflexivity|rewrite scp_table_length; assumption]. Qed.
+
+Lemma cs_table_bounds : forall i, (i < 1008)%nat -> 0 <= nthq cs_pct_table i /\ nthq cs_pct_table i <= 95 # 10.
+Proof. intros. apply table_bounds; [vm_compute; reflexivity|rewrite cs_table_length; assumption]. Qed.
+
+Definition industrial_ok (s nd f w : Q) : Prop := 0 <= s /\ 0 <= nd /\ 0 <= f /\ 0 <= w /\ w <= 100.
+
+Lemma industrial_scale_mono : forall s nd f w p q, industrial_ok s nd f w -> p <= q ->
+  industrial_scale s nd f w p <= industrial_scale s nd f w q.
+Proof.
+  intros s nd f w p q (Hs & Hn & Hf & Hw0 & Hw1) Hpq. unfold industrial_scale.
+  assert (W : 0 <= 1 - w / 100) by (assert (w / 100 <= 1) by (apply Qle_shift_div_r; lra); lra).
+  assert (K : 0 <= s / 100 * nd * f * (1 - w / 100)).
+  { assert (S1 : 0 <= s / 100) by (apply Qle_shift_div_l; lra).
+    apply Qmult_le_0_compat; [|exact W]. apply Qmult_le_0_compat; [|exact Hf]. apply Qmult_le_0_compat; assumption. }
+  setoid_replace (p / (1 - 12 / 100) * s / 100 * nd * f * (1 - w / 100))
+    with (p * (25 # 22) * (s / 100 * nd * f * (1 - w / 100))) by field.
+  setoid_replace (q / (1 - 12 / 100) * s / 100 * nd * f * (1 - w / 100))
+    with (q * (25 # 22) * (s / 100 * nd * f * (1 - w / 100))) by field.
+  set (k := s / 100 * nd * f * (1 - w / 100)) in *. clearbody k.
+  assert (p * (25 # 22) <= q * (25 # 22)) by lra. nra.
+Qed.
+
+Lemma industrial_scale_zero : forall s nd f w, industrial_scale s nd f w 0 == 0.
+Proof. intros. unfold industrial_scale. field. Qed.
+
+(* ramp: non-decreasing, non-negative, at most the plateau *)
+Lemma scp_monotone : forall n d s nd f w i j, (n <= 1000)%nat -> industrial_ok s nd f w -> (i <= j)%nat -> (j < n)%nat ->
+  nthq (scp_series true n d s nd f w) i <= nthq (scp_series true n d s nd f w) j.
+Proof.
+  intros n d s nd f w i j Hn Hok Hij Hj.
+  rewrite !scp_nth by lia. apply industrial_scale_mono; [exact Hok|].
+  destruct (Nat.ltb_spec i (2 * d)) as [E1|E1]; destruct (Nat.ltb_spec j (2 * d)) as [E2|E2].
+  - apply Qle_refl.
+  - apply (scp_table_bounds (j - 2 * d)). lia.
+  - lia.
+  - apply scp_table_mono; lia.
+Qed.
+
+Lemma scp_range : forall n d s nd f w m, (n <= 1000)%nat -> industrial_ok s nd f w -> (m < n)%nat ->
+  0 <= nthq (scp_series true n d s nd f w) m /\
+  nthq (scp_series true n d s nd f w) m <= industrial_scale s nd f w 15.
+Proof.
+  intros n d s nd f w m Hn Hok Hm. rewrite scp_nth by lia.
+  rewrite <- (industrial_scale_zero s nd f w) at 1.
+  destruct (m <? 2 * d)%nat eqn:E.
+  - split; apply industrial_scale_mono; try exact Hok; lra.
+  - apply Nat.ltb_ge in E. destruct (scp_table_bounds (m - 2 * d)) as [A B]; [lia|].
+    split; apply industrial_scale_mono; assumption.
+Qed.
+
+Lemma cs_monotone : forall n d s nd f w i j, (n <= 1000)%nat -> industrial_ok s nd f w -> (i <= j)%nat -> (j < n)%nat ->
+  nthq (cs_series true n d s nd f w) i <= nthq (cs_series true n d s nd f w) j.
+Proof.
+  intros n d s nd f w i j Hn Hok Hij Hj.
+  rewrite !cs_nth by lia. apply industrial_scale_mono; [exact Hok|].
+  destruct (Nat.ltb_spec i d) as [E1|E1]; destruct (Nat.ltb_spec j d) as [E2|E2].
+  - apply Qle_refl.
+  - apply (cs_table_bounds (j - d)). lia.
+  - lia.
+  - apply cs_table_mono; lia.
+Qed.
+
+Lemma cs_range : forall n d s nd f w m, (n <= 1000)%nat -> industrial_ok s nd f w -> (m < n)%nat ->
+  0 <= nthq (cs_series true n d s nd f w) m /\
+  nthq (cs_series true n d s nd f w) m <= industrial_scale s nd f w (95 # 10).
+Proof.
+  intros n d s nd f w m Hn Hok Hm. rewrite cs_nth by lia.
+  rewrite <- (industrial_scale_zero s nd f w) at 1.
+  destruct (m <? d)%nat eqn:E.
+  - split; apply industrial_scale_mono; try exact Hok; lra.
+  - apply Nat.ltb_ge in E. destruct (cs_table_bounds (m - d)) as [A B]; [lia|].
+    split; apply industrial_scale_mono; assumption.
+Qed.
+
+Lemma scp_homogeneous : forall n d s nd f w k m, (n <= 1000)%nat -> (m < n)%nat ->
+  nthq (scp_series true n d s nd (k * f) w) m == k * nthq (scp_series true n d s nd f w) m.
+Proof. intros. rewrite !scp_nth by assumption. unfold industrial_scale. field. Qed.
+
+Lemma cs_homogeneous : forall n d s nd f w k m, (n <= 1000)%nat -> (m < n)%nat ->
+  nthq (cs_series true n d s nd (k * f) w) m == k * nthq (cs_series true n d s nd f w) m.
+Proof. intros. rewrite !cs_nth by assumption. unfold industrial_scale. field. Qed.
+
+(* the property's reading (one delay) is refuted for the code as written *)
+Lemma scp_single_delay_refuted :
+  exists n d s nd f w m, (m < n)%nat /\ ~ nthq (scp_series true n d s nd f w) m == nthq (scp_series_spec true n d s nd f w) m.
+Proof.
+  exists 48%nat, 2%nat, 1, 100, 1, 0, 14%nat. split; [lia|]. vm_compute. discriminate.
+Qed.
+
+(* ---------------------------------------------------------------- stored food *)
+Lemma stock_before_january : forall s, stock_before s 1 = nthq s 11.
+Proof. reflexivity. Qed.
+Lemma stock_before_may : forall s, stock_before s 5 = nthq s 3.
+Proof. reflexivity. Qed.
+
+Lemma stored_closed_form : forall s start r p w,
+  stored_initial s start r p w ==
+  (nthq s ((start + 10) mod 12) * p / 100 - list_min s * r) * 4000000 / 1000000000 * (1 - w / 100).
+Proof. intros. unfold stored_initial, stored_tons, stock_before. field. Qed.
+
+Lemma stored_nonneg : forall s start r p w, stored_ok s start r p = true -> 0 <= w -> w <= 100 ->
+  0 <= stored_initial s start r p w.
+Proof.
+  intros s start r p w H W0 W1. unfold stored_ok in H. repeat (apply andb_true_iff in H; destruct H as [H ?]).
+  apply Qle_bool_iff in H0. unfold stored_initial.
+  assert (0 <= 1 - w / 100) by (assert (w / 100 <= 1) by (apply Qle_shift_div_r; lra); lra).
+  set (t := stored_tons s start r p) in *. clearbody t.
+  apply Qmult_le_0_compat; [|assumption]. apply Qle_shift_div_l; [lra|]. nra.
+Qed.
+(* ---------------------------------------------------------------- grass *)
+Definition grass_years (n : nat) : list nat :=
+  flat_map (fun i => repeat (i - 1)%nat (grass_block n i)) (seq 1 (n / 12)).
+
+Lemma map_repeat_q : forall (f : nat -> Q) x k, map f (repeat x k) = rep (f x) k.
+Proof. intros. induction k; simpl; [reflexivity|]. unfold rep in *. rewrite IHk. reflexivity. Qed.
+
+Lemma grass_series_map : forall n b ratios,
+  grass_series n b ratios = map (fun y => nthq ratios y * b * 4000) (grass_years n).
+Proof.
+  intros. unfold grass_series, grass_years. generalize (seq 1 (n / 12)). intro l.
+  induction l as [|i l IH]; simpl; [reflexivity|].
+  rewrite map_app, map_repeat_q, IH. reflexivity.
+Qed.
+
+Definition supported_horizons : list nat := [24; 36; 48; 60; 72; 84; 96; 108; 120]%nat.
+
+Definition grass_years_ok (n : nat) : bool :=
+  Nat.eqb (List.length (grass_years n)) n &&
+  forallb (fun m => Nat.eqb (nth m (grass_years n) 0%nat) (grass_year_of n m)) (seq 0 n).
+
+Lemma grass_years_checked : forallb grass_years_ok supported_horizons = true.
+Proof. vm_compute. reflexivity. Qed.
+
+Lemma grass_length : forall n b ratios, In n supported_horizons -> List.length (grass_series n b ratios) = n.
+Proof.
+  intros n b ratios Hin. pose proof grass_years_checked as H. rewrite forallb_forall in H.
+  specialize (H n Hin). apply andb_true_iff in H. destruct H as [L _]. apply Nat.eqb_eq in L.
+  rewrite grass_series_map, map_length. exact L.
+Qed.
+
+(* 8 months of year 1, 12 of every middle year, 16 of the last *)
+Lemma grass_nth : forall n b ratios m, In n supported_horizons -> (m < n)%nat ->
+  nthq (grass_series n b ratios) m = nthq ratios (grass_year_of n m) * b * 4000.
+Proof.
+  intros n b ratios m Hin Hm. pose proof grass_years_checked as H. rewrite forallb_forall in H.
+  specialize (H n Hin). apply andb_true_iff in H. destruct H as [L F]. apply Nat.eqb_eq in L.
+  rewrite forallb_forall in F. assert (E : nth m (grass_years n) 0%nat = grass_year_of n m).
+  { apply Nat.eqb_eq. apply F. apply in_seq. lia. }
+  rewrite grass_series_map. rewrite nthq_map_nat by (rewrite L; exact Hm). rewrite E. reflexivity.
+Qed.
+
+Lemma grass_homogeneous : forall n b ratios k m, In n supported_horizons -> (m < n)%nat ->
+  nthq (grass_series n (k * b) ratios) m == k * nthq (grass_series n b ratios) m.
+Proof. intros. rewrite !grass_nth by assumption. ring. Qed.
+
+Lemma grass_nonneg : forall n b ratios m, In n supported_horizons -> (m < n)%nat -> 0 <= b -> all_nonneg ratios ->
+  0 <= nthq (grass_series n b ratios) m.
+Proof.
+  intros n b ratios m Hin Hm Hb Hr. rewrite grass_nth by assumption.
+  pose proof (Hr (grass_year_of n m)). set (r := nthq ratios (grass_year_of n m)) in *. clearbody r. nra.
+Qed.
+
+(* ---------------------------------------------------------------- seaweed built area *)
+Lemma built_area_length : forall add n d nf mf, List.length (seaweed_built_area add n d nf mf) = n.
+Proof.
+  intros. unfold seaweed_built_area. cbv zeta.
+  rewrite firstn_length, map_length, app_length, rep_length, linspace_length. lia.
+Qed.
+
+Lemma built_area_capped : forall add n d nf mf m, (m < n)%nat ->
+  nthq (seaweed_built_area add n d nf mf) m <= seaweed_max_area mf.
+Proof.
+  intros add n d nf mf m Hm. unfold seaweed_built_area. cbv zeta.
+  rewrite nthq_firstn by exact Hm.
+  rewrite nthq_map by (rewrite app_length, rep_length, linspace_length; lia).
+  match goal with |- (if Qlt_bool ?a ?x then _ else _) <= _ => destruct (Qlt_bool a x) eqn:E end.
+  - apply Qle_refl.
+  - apply Qlt_bool_false in E. exact E.
+Qed.
+
+(* constant while the start-up delay lasts *)
+Lemma built_area_before_delay : forall n d nf mf m, (m < n)%nat -> (m < d)%nat ->
+  nthq (seaweed_built_area true n d nf mf) m ==
+  (if Qlt_bool (seaweed_max_area mf) (seaweed_init_area nf) then seaweed_max_area mf else seaweed_init_area nf).
+Proof.
+  intros n d nf mf m Hm Hd. unfold seaweed_built_area. cbv zeta.
+  rewrite nthq_firstn by exact Hm.
+  rewrite nthq_map by (rewrite app_length, rep_length, linspace_length; lia).
+  rewrite nthq_app_l by (rewrite rep_length; exact Hd). rewrite rep_nth by exact Hd. reflexivity.
+Qed.
+
+(* after the delay: initial area + (m - delay) x monthly build rate, capped *)
+Lemma built_area_after_delay : forall n d nf mf m, (m < n)%nat -> (d <= m)%nat ->
+  nthq (seaweed_built_area true n d nf mf) m ==
+  (let x := seaweed_init_area nf + qnat (m - d) * (seaweed_new_area_global * nf) in
+   if Qlt_bool (seaweed_max_area mf) x then seaweed_max_area mf else x).
+Proof.
+  intros n d nf mf m Hm Hd. unfold seaweed_built_area. cbv zeta.
+  rewrite nthq_firstn by exact Hm.
+  rewrite nthq_map by (rewrite app_length, rep_length, linspace_length; lia).
+  rewrite nthq_app_r by (rewrite rep_length; exact Hd). rewrite rep_length.
+  rewrite linspace_nth by lia.
+  set (init := seaweed_init_area nf). set (per := seaweed_new_area_global * nf). set (mx := seaweed_max_area mf).
+  assert (E : init + (qnat (n - 1) * per + init - init) * qnat (m - d) / qnat (n - 1) == init + qnat (m - d) * per).
+  { destruct (Nat.eq_dec n 1) as [->|Hn1].
+    - replace (m - d)%nat with 0%nat by lia. change (qnat (1 - 1)) with 0. change (qnat 0) with 0.
+      unfold Qdiv. change (/ 0) with 0. ring.
+    - assert (P : 0 < qnat (n - 1)) by (apply qnat_pos; lia). field. intro Z. lra. }
+  destruct (Qlt_bool mx (init + (qnat (n - 1) * per + init - init) * qnat (m - d) / qnat (n - 1))) eqn:E1;
+  destruct (Qlt_bool mx (init + qnat (m - d) * per)) eqn:E2; try reflexivity; try exact E.
+  - apply Qlt_bool_iff in E1. apply Qlt_bool_false in E2. lra.
+  - apply Qlt_bool_false in E1. apply Qlt_bool_iff in E2. lra.
+Qed.
+(* ---------------------------------------------------------------- more on the area; homogeneity of the crop series *)
+Lemma area_spec_mono : forall g i j, 0 <= total_crop_area g * gmult g -> (i <= j)%nat -> area_spec g i <= area_spec g j.
+Proof.
+  intros g i j H Hij. unfold area_spec. destruct (Qeq_bool (total_crop_area g) 0); [lra|].
+  destruct (gadd g); [apply area_fn_mono; assumption|lra].
+Qed.
+
+Lemma area_spec_zero_before : forall g m, (m < gdelay g + 5)%nat -> area_spec g m == 0.
+Proof.
+  intros g m H. unfold area_spec. destruct (Qeq_bool (total_crop_area g) 0); [reflexivity|].
+  destruct (gadd g); [apply area_fn_zero_before; exact H|reflexivity].
+Qed.
+
+Section Homogeneous.
+  Variable pw : Q -> Q -> Q.
+
+  Lemma grown_climate_homogeneous : forall c k m,
+    List.length (cseas c) = 12%nat -> (1 <= cstart c <= 12)%nat -> (m < cN c)%nat ->
+    nthq (grown_climate pw (set_base c (k * cbase c))) m == k * nthq (grown_climate pw c) m.
+  Proof.
+    intros c k m Hl Hs Hm.
+    rewrite (grown_climate_nth pw (set_base c (k * cbase c)) m) by exact Hm.
+    rewrite (grown_climate_nth pw c m) by exact Hm.
+    rewrite (months_cycle_nth (set_base c (k * cbase c))) by (try assumption; apply Nat.mod_upper_bound; lia).
+    rewrite (months_cycle_nth c) by (try assumption; apply Nat.mod_upper_bound; lia).
+    change (reductions (set_base c (k * cbase c))) with (reductions c).
+    change (eff_exp (set_base c (k * cbase c))) with (eff_exp c).
+    cbn [cseas cstart cbase set_base]. field.
+  Qed.
+
+  Lemma grown_homogeneous : forall c k m,
+    List.length (cseas c) = 12%nat -> (1 <= cstart c <= 12)%nat -> (m < cN c)%nat ->
+    nthq (grown pw (set_base c (k * cbase c))) m == k * nthq (grown pw c) m.
+  Proof.
+    intros c k m Hl Hs Hm. unfold grown. change (carea (set_base c (k * cbase c))) with (carea c).
+    destruct (Qlt_bool 1 (carea c)).
+    - rewrite !map2_nth by (rewrite ?grown_climate_length, ?area_ramp_length; exact Hm).
+      change (area_ramp (set_base c (k * cbase c))) with (area_ramp c).
+      rewrite grown_climate_homogeneous by assumption. ring.
+    - apply grown_climate_homogeneous; assumption.
+  Qed.
+
+  (* scaling the crop baseline by k scales every month of the series handed to the optimiser by exactly k *)
+  Lemma production_homogeneous : forall c g k m,
+    List.length (cseas c) = 12%nat -> List.length (crs c) = 9%nat -> (1 <= cstart c <= 12)%nat ->
+    (m < cN c)%nat -> (cN c <= 120)%nat ->
+    nthq (outdoor_production pw (set_base c (k * cbase c)) g) m == k * nthq (outdoor_production pw c g) m.
+  Proof.
+    intros c g k m Hl Hr Hs Hm HN. destruct (cadd c) eqn:Ha.
+    - rewrite (outdoor_production_nth pw (set_base c (k * cbase c)) g m Ha Hm).
+      rewrite (outdoor_production_nth pw c g m Ha Hm).
+      unfold grown_on_land. cbn [crot chd crotdelay cN cwd set_base].
+      destruct (crot c && (chd c + crotdelay c <=? m)%nat).
+      + rewrite grown_homogeneous by assumption. ring.
+      + rewrite norel_homogeneous by assumption. ring.
+    - rewrite !outdoor_production_off by exact Ha. ring.
+  Qed.
+End Homogeneous.
